@@ -24,6 +24,6 @@ for sid, r in sorted(res.items()):
     meta = json.load(open(os.path.join(dst, "meta.json")))
     meta["confirmed_by_framework_author"] = {k: v for k, v in r.items() if not k.endswith("_out") and k != "done"}
     meta["confirmation_cmd"] = "python3 tools/confirm_seed.py %s  (scratch worktree: demo on clean tree; git apply patch; cargo test --workspace --offline; demo again)" % sid
-    meta["origin"] = "independent sub-agent given only the property text and its own scratch worktree (round %d)" % {0: 1, 2: 2, 5: 3, 8: 4, 11: 5, 14: 6, 16: 7, 18: 8}.get(off, 1 + off // 3)
+    meta["origin"] = "independent sub-agent given only the property text and its own scratch worktree (round %d)" % {0: 1, 2: 2, 5: 3, 8: 4, 11: 5, 14: 6, 16: 7, 18: 8, 20: 9}.get(off, 1 + off // 3)
     json.dump(meta, open(os.path.join(dst, "meta.json"), "w"), indent=1)
     print("adopted", sid, "->", os.path.basename(dst))
